@@ -21,7 +21,12 @@ pub(crate) trait MapView: fmt::Debug {
     }
     // todo: wildly ineffecient to return vec here, because of the arbitrary nesting of Self
     fn keys(&self) -> Vec<Identifier>;
-    fn iter(&self) -> Vec<(Identifier, Self::Value)>;
+    fn iter(&self) -> Vec<(Identifier, Self::Value)> {
+        self.keys()
+            .into_iter()
+            .filter_map(|name| Some((name, self.get(name)?)))
+            .collect()
+    }
 }
 
 impl<T> MapView for Arc<dyn MapView<Value = T>> {
@@ -124,10 +129,6 @@ impl<V: fmt::Debug + Clone, T: MapView<Value = V> + Clone> MapView for Unprefixe
             .map(|key| Identifier::from(key.as_str().strip_prefix(&self.1).unwrap()))
             .collect()
     }
-
-    fn iter(&self) -> Vec<(Identifier, Self::Value)> {
-        unimplemented!()
-    }
 }
 
 impl<V: fmt::Debug + Clone, T: MapView<Value = V> + Clone> MapView for PrefixedMapView<V, T> {
@@ -173,10 +174,6 @@ impl<V: fmt::Debug + Clone, T: MapView<Value = V> + Clone> MapView for PrefixedM
             .filter(|key| key.as_str().starts_with(&self.1))
             .map(|key| Identifier::from(format!("{}{}", self.1, key)))
             .collect()
-    }
-
-    fn iter(&self) -> Vec<(Identifier, Self::Value)> {
-        unimplemented!()
     }
 }
 
@@ -251,10 +248,6 @@ impl<V: fmt::Debug + Clone, T: MapView<Value = V> + Clone> MapView for LimitedMa
 
     fn keys(&self) -> Vec<Identifier> {
         self.1.iter().copied().collect()
-    }
-
-    fn iter(&self) -> Vec<(Identifier, Self::Value)> {
-        unimplemented!()
     }
 }
 
